@@ -153,14 +153,19 @@ def run_workers(binary, prop, seed, tier, ncases, budget, extra=None, samples=2)
     t_end = time.time() + budget
     casecpu = CASE_CPU.get(prop, CASE_CPU_DEFAULT)
 
+    chunk = PROCESS_CHUNK.get(prop, 0)
+
     def slot(i):
         frm = i
         restarts = 0
+        first = True
         while frm < ncases:
             left = t_end - time.time()
-            if left <= 0 and restarts > 0:
+            if left <= 0 and not first:
                 return
-            cmd = [binary, "-prop", prop, "-seed", str(seed), "-tier", tier, "-from", str(frm), "-to", str(ncases),
+            first = False
+            upto = ncases if not chunk else min(ncases, frm + chunk * w)
+            cmd = [binary, "-prop", prop, "-seed", str(seed), "-tier", tier, "-from", str(frm), "-to", str(upto),
                    "-step", str(w), "-budget", "%ds" % max(1, int(left)), "-samples", str(samples if (i == 0 and restarts == 0) else 0), "-mark"]
             if casecpu:
                 cmd += ["-casecpu", "%ds" % casecpu]
@@ -193,6 +198,10 @@ def run_workers(binary, prop, seed, tier, ncases, budget, extra=None, samples=2)
             with lock:
                 results.extend(local)
             if p.returncode == 0:
+                if chunk and upto < ncases:
+                    # fresh process for the next few cases (first-use initialisation runs again)
+                    frm = upto
+                    continue
                 return
             etxt = err.decode(errors="replace")
             if started is None or started in done:
@@ -284,6 +293,10 @@ CASE_CPU_DEFAULT = 45
 # race builds fault so many pages (shadow memory is reset on every free) that more than a few
 # processes only contend in this VM: measured 2.4 cases/s with 1 worker, 2.0 cases/s with 4, 1.9 with 16
 WORKERS = {"C18": 4}
+# C18: a worker process handles only this many cases and is then replaced by a fresh one, so that
+# code which initialises package-level state on first use is met by concurrent first users again
+# and again (one long-lived process would meet it once)
+PROCESS_CHUNK = {"C18": 3}
 
 
 def shrink_and_confirm(binary, prop, seed, tier, res):
